@@ -111,8 +111,8 @@ theorem read_progress (kd : Kind) (n k : Nat) (t : TState) (hwf : wf kd t)
       cases hpp : t.s.pending with
       | nil => exact absurd hpp h.2.2.1
       | cons x xs => simp
-    have hl := takeLen_pos n k t.s.pending.length
-    have hle := takeLen_le n k t.s.pending.length hn hp
+    have hl := takeLen_pos n k
+    have hle := takeLen_le n k hn
     refine ⟨_, by rw [h.2.2.2], ?_, ?_⟩
     · intro h0
       have := congrArg List.length h0
@@ -138,7 +138,7 @@ theorem read_bounded (kd : Kind) (n k : Nat) (t : TState) (hwf : wf kd t) :
       cases hpp : t.s.pending with
       | nil => exact absurd hpp h.2.2.1
       | cons x xs => simp
-    have hle := takeLen_le n k t.s.pending.length (by omega) hp
+    have hle := takeLen_le n k (by omega)
     simp only [Outcome.data, List.length_take]
     omega
 
@@ -428,12 +428,10 @@ theorem every_segmentation_realisable (kd : Kind) (n : Nat) (cs : List Bytes)
     · omega
     · exact absurd h.2.2.1 hne
     · exact absurd h.2.2.1 hne
-    · have htl : takeLen n c.length (c ++ cs.flatten).length = c.length := by
-        apply takeLen_exact _ _ _ hc1 hc.2
-        simp
+    · have htl : takeLen n c.length = c.length := takeLen_exact _ _ hc1 hc.2
       simp only [List.flatten_cons]
       rw [h.2.2.2]
-      simp only [htl, List.take_left', List.drop_left']
+      simp only [htl, List.take_left, List.drop_left]
       have ih' := ih (fun c' hc' => hcs c' (by simp [hc']))
       simp only [readEvents] at ih'
       rw [ih']
